@@ -3,6 +3,34 @@ import St4sd.Model.Weights
 /-! Model driver for property C20. -/
 open Lean Proto St4sd.Weights
 
+def getOptIntList (j : Json) (k : String) : Except String (List (Option Int)) := do
+  (← getArr j k).mapM (fun v => match v with
+    | Json.null => pure none
+    | v => do return some (← v.getInt?))
+
+def parseCtlOp (v : Json) : Except String (Option CtlOp) := do
+  let a ← v.getArr?
+  let tag ← (a[0]?.getD Json.null).getStr?
+  let n (i : Nat) : Except String Nat := (a[i]?.getD Json.null).getNat?
+  match tag with
+  | "fin" => return some (.fin (← n 1) (← n 2))
+  | "grow" => return some (.grow (← n 1) (← n 2))
+  | "q" => return none
+  | _ => throw s!"unknown controller op {tag}"
+
+/-- runs the history; at every `["q"]` reports (finished, population) of every stage and the total -/
+def stageHistory (c : Ctl) (ws : List Int) : List (Option CtlOp) → List Json
+  | [] => []
+  | none :: r =>
+    let n := c.stages.length
+    let c' := (List.range n).foldl (fun c k => step c (.query k)) c
+    jobj [("stages", jarr ((List.range n).map (fun k =>
+              let q := queryStage c k
+              jarr [jnat q.1, jnat q.2]))),
+          ("D", jint (prodLen c.stages)),
+          ("total", jint (totalOfStages c.stages ws))] :: stageHistory c' ws r
+  | some o :: r => stageHistory (step c o) ws r
+
 def handle (j : Json) : Except String Json := do
   let op ← getStr j "op"
   match op with
@@ -28,6 +56,19 @@ def handle (j : Json) : Except String Json := do
     let total := checkTotal scale cur transit finished (readOf ps) ws
     let disjoint := transit.all (fun k => !finished.contains k)
     return jobj [("total", jint total), ("partition", jbool (disjoint && decide (finished.eraseDups.length = finished.length)))]
+  | "load" =>
+    -- given / missing stage weights: what the loader validates, stores, and what StatusMonitor makes of the report
+    let gs ← getOptIntList j "gs"
+    return jobj [("kept", jbool (proper (givenUnits gs))), ("weights", jarr ((load gs).map jint)),
+                 ("report", jarr ((loadReport gs).map (jopt jint))),
+                 ("monitor", jopt (fun l => jarr (l.map jint)) (monitorFromReport (loadReport gs)))]
+  | "stagehist" =>
+    let pops ← getNatList j "stages"
+    let ws ← getIntList j "ws"
+    let ops ← (← getArr j "ops").mapM parseCtlOp
+    let c : Ctl := ⟨pops.map (fun n => List.replicate n false), pops.map (fun _ => none)⟩
+    return jobj [("weights", jarr ((normalize ws).map jint)),
+                 ("queries", jarr (stageHistory c (normalize ws) ops))]
   | "monitor" =>
     let ws ← getIntList j "ws"
     return match monitorWeights ws with
